@@ -80,7 +80,7 @@ func checkC07(c *Check) {
 	optSets := []modelOpts{{Ast: true}, {Ast: false}, {Ast: true, Inline: true}, {Ast: false, Inline: true}}
 	specs := tokenSuite()
 	if c.Tier == "thorough" {
-		specs = append(specs, thoroughSpecs(c.Seed, 300)...)
+		specs = append(specs, thoroughSpecs(c.Seed, 1200)...)
 	}
 	rs, probs := runSuite(r, specs, optSets)
 	for _, p := range probs {
@@ -127,6 +127,10 @@ func checkC07(c *Check) {
 			okOp[op] = 0
 		}
 		if a.TV.Skipped != "" || b.TV.Skipped != "" {
+			continue
+		}
+		if strings.HasPrefix(op, "random") && strings.Contains(strings.Join(append(append([]string{}, a.TV.Und...), b.TV.Und...), " "), "state explosion") {
+			c.Note("random models left out (state explosion)", k.name)
 			continue
 		}
 		if !(a.TV.EmitErr == "" && b.TV.EmitErr == "" && len(a.TV.TypeErrs) == 0 && len(b.TV.TypeErrs) == 0 && len(a.TV.Und) == 0 && len(b.TV.Und) == 0) {
